@@ -284,12 +284,8 @@ mutual
     | a :: l => transposeOp a :: transposeL l
 end
 
-/-- `root.mT` inside `add_low_rank` for the root factors the harness builds (Dense, Triangular(Dense));
-any other factor is outside the mirrored region and becomes an opaque transposed operand. -/
-def rootT : Op α → Op α
-  | .dense n m t => .dense m n fun i j => t j i
-  | .tri up (.dense n m t) => .tri (!up) (.dense m n fun i j => t j i)
-  | r => .opq 96 r.cols r.rows fun i j => r.denote j i
+/-- `root.mT` inside `add_low_rank` (`_transpose_nonbatch` of the root factor). -/
+def rootT (r : Op α) : Op α := transposeOp r
 
 /-! ### `add_diagonal` -/
 
@@ -332,12 +328,11 @@ def addJitter (a : Op α) (c : α) : Except Err (Op α) :=
 
 /-! ### `__add__` -/
 
-/-- the operator `add_low_rank` adds for a root-form `other`: `root @ root.mT`.  For an upper-orientation Cholesky
-operator the model takes the intended `root.mT @ root` (= the operator's value); the code still adds
-`root @ root.mT` there — defect D64, `open:` in known_findings.txt, fix notes/C02_fix_11.diff. -/
+/-- the operator `add_low_rank` adds for a root-form `other` (69b27fd): `B @ B.mT` with `B = other.root_decomposition().root`,
+i.e. the stored root for Root / LowRankRoot / lower Chol and `root.mT` for an upper-orientation Cholesky operator. -/
 def lowRankTerm (b : Op α) : Op α :=
   match b with
-  | .cholU r => .matmul (rootT r) r
+  | .cholU r => .matmul (rootT r) (rootT (rootT r))
   | b => .matmul b.rootOf (rootT b.rootOf)
 
 /-- `LinearOperator.__add__` (base class ladder). -/
@@ -437,7 +432,8 @@ mutual
     | .mul a b, c => if S.pos c then mkMul (mulConst S a c) b else .constMul (.mul a b) c
     | .sum l, c => .sum (mulConstL S l c)
     | .psdSum l, c => .psdSum (mulConstL S l c)
-    | .sumKron a b, c => .sumKron (mulConst S a c) (mulConst S b c)
+    -- SumKroneckerLinearOperator._mul_constant (608f21e): a plain SumLinearOperator of the scaled summands
+    | .sumKron a b, c => .sum [mulConst S a c, mulConst S b c]
     | .addedDiag a d, c => .addedDiag (mulConst S a c) (mulConst S d c)
     | .kronAddedDiag a d, c => .kronAddedDiag (mulConst S a c) (mulConst S d c)
     | .lrrAddedDiag a d, c =>
